@@ -263,6 +263,32 @@ fn check_system(units: &[UnitInfo], c: &SysCase, st: &mut Stats) -> Verdict {
         "{before:?}.{what} gave {q:?}: amount {lo0:e}..{hi0:e} became {lo1:e}..{hi1:e} (base units)"
     );
     st.class_if(fraction_shown, "fraction-with-error-term");
+    // a second conversion starts from the (possibly lossy fraction + error) result: the amount
+    // must still be the original one
+    let mut q2 = q.clone();
+    let (r2, what2) = match (c.start_bits >> 3) % 4 {
+        0 => (guard(|| q2.convert(System::Metric, &BUNDLED)), "convert(Metric)".to_string()),
+        1 => (guard(|| q2.convert(System::Imperial, &BUNDLED)), "convert(Imperial)".to_string()),
+        2 => (guard(|| q2.fit(&BUNDLED)), "fit()".to_string()),
+        _ => {
+            let back = key.clone();
+            (guard(|| q2.convert(back.as_str(), &BUNDLED)), format!("convert({key:?})"))
+        }
+    };
+    match r2 {
+        Err(p) => vbail!("c09.panic.system", "{q:?}.{what2} panicked: {p}"),
+        Ok(Err(e)) => vbail!("c09.system-conversion-failed", "{q:?}.{what2} failed: {e}"),
+        Ok(Ok(())) => {}
+    }
+    let Some(nu2) = q2.unit().and_then(|k| find(units, k)) else {
+        vbail!("c09.system-unit-unknown", "{q:?}.{what2} gave {q2:?}");
+    };
+    let Some((lo2, hi2)) = amount(&q2, nu2) else { vbail!("c09.value-kind", "{q2:?}") };
+    vensure!(
+        approx_eq(lo0, lo2, 1e-9, t) && approx_eq(hi0, hi2, 1e-9, t),
+        "c09.chained-amount-changed",
+        "{before:?}.{what} gave {q:?}, then .{what2} gave {q2:?}: amount {lo0:e}..{hi0:e} became {lo2:e}..{hi2:e} (base units)"
+    );
     Ok(())
 }
 
